@@ -300,6 +300,7 @@ type GraphOpts struct {
 	AliasNames bool // with Titles: some blobs share a file name (different content under one name)
 	SHA512     bool // some blobs are addressed by sha512
 	Fanout     bool // with Referrers: many referrers share one subject (paged listings, merged index updates)
+	Wide       bool // indexes list many manifests (6-12): many sibling sub-graphs are open at once
 }
 
 var aTypes = []string{"application/vnd.example.sbom", "application/vnd.example.sig", "application/vnd.test+type", ""}
@@ -314,6 +315,9 @@ func GenGraph(r *Rand, o GraphOpts) *GraphSpec {
 		max = 3
 	}
 	total := r.Range(2, max)
+	if o.Wide {
+		total = r.Range(max-8, max) // room for a broad base of manifests plus indexes over them
+	}
 	nBlobs := r.Range(1, (total+1)/2+1)
 	var blobs, manifs []int
 	hub := -1
@@ -383,6 +387,9 @@ func GenGraph(r *Rand, o GraphOpts) *GraphSpec {
 			kinds = append(kinds, "dmanifest", "dlist")
 		}
 		ns.Kind = pick(r, kinds)
+		if o.Wide && len(manifs) < 9 {
+			ns.Kind = "manifest" // first a broad base of image manifests, then indexes over them
+		}
 		if (ns.Kind == "index" || ns.Kind == "dlist") && len(manifs) == 0 {
 			ns.Kind = "manifest"
 		}
@@ -410,6 +417,9 @@ func GenGraph(r *Rand, o GraphOpts) *GraphSpec {
 			}
 		case "index", "dlist":
 			k := r.Range(1, 4)
+			if o.Wide && len(manifs) >= 6 {
+				k = r.Range(6, 12)
+			}
 			for j := 0; j < k; j++ {
 				ns.Children = append(ns.Children, pick(r, manifs)) // nested indexes possible
 			}
